@@ -224,8 +224,19 @@ fn run_schedule_late(sched: &[f64], ctl_histories: &[Vec<Ctl>], tms: &[Cf], late
     let tls1: Vec<Tl> = tms.iter().map(|c| c.build()).collect();
     let tl2 = Tl::Plain(t2());
     let mut ents: Vec<Ent> = vec![];
+    // bystanders: enabled animators that have no timeline (yet) - with and without a target component - spawned
+    // before, in the middle of and after every batch; they stay idle and must not disturb anybody else
+    let idle: std::cell::RefCell<Vec<Entity>> = std::cell::RefCell::new(vec![]);
+    let spawn_idle = |d: &mut Driver| {
+        idle.borrow_mut().push(d.app.world.spawn((C::initial(), Animator::<C>::new())).id());
+        idle.borrow_mut().push(d.app.world.spawn((Animator::<C>::new(),)).id());
+    };
     let spawn_batch = |d: &mut Driver, ents: &mut Vec<Ent>, born: usize| {
+        spawn_idle(d);
         for (ci, _) in tms.iter().enumerate() {
+            if ci == tms.len() / 2 {
+                spawn_idle(d);
+            }
             for h in ctl_histories {
                 // API variety: histories that start with Disable are spawned with `as_disabled()`, those
                 // that start with Reset through `Animator::new()` + `set_timeline`
@@ -243,6 +254,7 @@ fn run_schedule_late(sched: &[f64], ctl_histories: &[Vec<Ctl>], tms: &[Cf], late
                 ents.push(Ent { e, cfg: ci, ctl: h.clone(), born, on_t2: false, ended_events_in_run: 0, entered_ended_in_run: false, comp_saw_end: false });
             }
         }
+        spawn_idle(d);
     };
     spawn_batch(&mut d, &mut ents, 0);
     let mut index_of: std::collections::HashMap<Entity, usize> = ents.iter().enumerate().map(|(i, e)| (e.e, i)).collect();
@@ -306,7 +318,18 @@ fn run_schedule_late(sched: &[f64], ctl_histories: &[Vec<Ctl>], tms: &[Cf], late
         let delta = d.last_delta();
         for (e, s) in frame_events {
             acc.events += 1;
-            ev_by_ent[index_of[&e]].push(s);
+            match index_of.get(&e) {
+                Some(&i) => ev_by_ent[i].push(s),
+                None => acc.sink.add("R0:timeline-less-animator-announced-a-state", rank0 | (f as u64) << 24, || (format!("frame {f}: an animator without a timeline sent the event {s:?}; deltas {sched:?}"), json!({"frame_deltas_s": sched, "bystander": true}))),
+            }
+        }
+        for &b in idle.borrow().iter() {
+            acc.rule_checks += 1;
+            let a = d.app.world.get::<Animator<C>>(b).unwrap();
+            let untouched = d.app.world.get::<C>(b).map(|c| c.bits() == C::initial().bits()).unwrap_or(true);
+            if a.state() != AnimationState::None || a.timeline_position != Duration::ZERO || !untouched {
+                acc.sink.add("R0:timeline-less-animator-not-idle", rank0 | (f as u64) << 24, || (format!("frame {f}: an enabled animator without a timeline is in state {:?} at {:?}, target untouched: {untouched}; deltas {sched:?}", a.state(), a.timeline_position), json!({"frame_deltas_s": sched, "bystander": true})));
+            }
         }
         for (i, ent) in ents.iter_mut().enumerate() {
             acc.entity_frames += 1;
